@@ -39,9 +39,7 @@ theorem parseFieldType_raw {ts ts' : List Token} {ty : FType}
   split at h
   · cases h
   · split at h
-    · split at h
-      · cases h
-      · cases h; simp [FType.inner, BaseType.Raw]
+    · split at h <;> cases h
     · rename_i ft hft
       have hr := typeOfTok_raw hft
       split at h
